@@ -958,6 +958,31 @@ func suiteNumFun(o *Out, thorough bool, seed int64) {
 				judge("exp", "-"+a, bigExp(new(big.Float).Neg(x)))
 			}
 		}
+		// exp over its whole finite range in the 16-digit context (it overflows at ln(10^385) = 886.4953...): a linear
+		// grid, denser next to the overflow point; beyond it the result is infinite
+		{
+			maxFinite, _, _ := big.ParseFloat("9.999999999999999e384", 10, 300, big.ToNearestEven)
+			var grid []string
+			for x := 0.37; x < 886; x += 2.9 {
+				grid = append(grid, strconv.FormatFloat(x, 'f', 2, 64))
+			}
+			for x := 880.0; x < 888; x += 0.0625 {
+				grid = append(grid, strconv.FormatFloat(x, 'f', 4, 64))
+			}
+			grid = append(grid, "886.4953", "886.49", "886.4954", "886.5", "887", "1000", "886", "885.999999999999")
+			for _, a := range grid {
+				x, _, _ := big.ParseFloat(a, 10, 300, big.ToNearestEven)
+				ref := bigExp(x)
+				if ref.Cmp(maxFinite) > 0 {
+					t := "exp(" + a + ")"
+					if got := ev(t); got != "V Dinf" {
+						o.Fail(line(t), fmt.Sprintf("%s is beyond the range of the 16-digit context and must be infinite: %s", t, got))
+					}
+					continue
+				}
+				judge("exp", a, ref)
+			}
+		}
 		o.Stat(fmt.Sprintf("transcendental references: %d arguments; worst relative error ln %.2g log %.2g exp %.2g", len(args), worst["ln"], worst["log"], worst["exp"]))
 	}
 	for k := -15; k <= 15; k++ {
